@@ -174,7 +174,9 @@ impl GroupStorage for MdkSqliteStorage {
     ) -> Result<Vec<Message>, GroupError> {
         let pagination = pagination.unwrap_or_default();
         let limit = pagination.limit();
-        let offset = pagination.offset();
+        // SQLite integers are signed 64-bit: an offset above i64::MAX lies past every row. (A plain
+        // `as i64` cast would wrap to a negative OFFSET, which SQLite treats as 0: the first page.)
+        let offset = i64::try_from(pagination.offset()).unwrap_or(i64::MAX);
 
         // Validate limit is within allowed range
         if !(1..=MAX_MESSAGE_LIMIT).contains(&limit) {
@@ -209,7 +211,7 @@ impl GroupStorage for MdkSqliteStorage {
 
             let messages_iter = stmt
                 .query_map(
-                    params![mls_group_id.as_slice(), limit as i64, offset as i64],
+                    params![mls_group_id.as_slice(), limit as i64, offset],
                     db::row_to_message,
                 )
                 .map_err(into_group_err)?;
